@@ -318,6 +318,9 @@ def finish(result):
     for kid, (k, v) in seen_known.items():
         print("KNOWN-FINDING: property=%s %s" % (result.prop, k["what"]), flush=True)
     os.makedirs(os.path.join(OUT, result.prop), exist_ok=True)
+    for old in os.listdir(os.path.join(OUT, result.prop)):
+        if old.startswith("violation_%s_" % result.tier):
+            os.unlink(os.path.join(OUT, result.prop, old))
     paths = []
     for i, v in enumerate(unknown[:10]):
         p = os.path.join(OUT, result.prop, "violation_%s_%d.json" % (result.tier, i))
@@ -329,8 +332,8 @@ def finish(result):
     cov = dict(result.coverage)
     if not cov.get("samples"):
         cov["samples"] = ["(no sample recorded)"]
-    cov["states"] = max(1, int(cov.get("states", 0)))
-    cov["transitions"] = max(1, int(cov.get("transitions", 0)))
+    if int(cov.get("states", 0)) < 1 or int(cov.get("transitions", 0)) < 1:
+        raise ToolError("no TLC states/transitions were counted for %s: the check did not run" % result.prop)
     ev = {
         "property_id": result.prop,
         "tier": result.tier,
@@ -347,3 +350,99 @@ def finish(result):
     with open(os.path.join(EVID, result.prop + ".json"), "w") as f:
         json.dump(ev, f, indent=1, sort_keys=True)
     return 1 if unknown else 0
+
+
+# --------------------------------------------------------------------------------------------
+# generic trace validation with diagnosis
+# --------------------------------------------------------------------------------------------
+def validate_trace(module, cfg, trace_path, is_reset, env=None, timeout=1200, max_rejections=5, xmx="2g"):
+    """Validate an ndjson trace against spec/<module>.tla (acceptance by POSTCONDITION on the matched
+    length).  On rejection the run is repeated with STUCK=<line> so that the Diag invariant prints the
+    named sub-checks of the unmatched event, and validation continues after the next reset event so
+    the rest of the trace is still examined.
+    Returns (events_matched, [Tlc results], [rejections]); a rejection is
+    {"stuck": line, "failed": [(property, subcheck)], "diag": text, "segment": events since last reset}"""
+    results, rejections = [], []
+    lines = open(trace_path).read().splitlines()
+    offset = 0
+    matched_total = 0
+    cur = trace_path
+    tmp = None
+    while True:
+        e = dict(env or {})
+        e["TRACE"] = cur
+        res = run_tlc(module, cfg, env=e, workers=1, deque=True, timeout=timeout, xmx=xmx)
+        results.append(res)
+        n_cur = len(lines) - offset
+        if res.rejected_at is None:
+            tlc_must_be_clean(res, "%s trace %s" % (module, os.path.basename(trace_path)))
+            matched_total += n_cur
+            break
+        stuck = res.rejected_at               # 1-based index (in cur) of the first unmatched line
+        if stuck > n_cur:
+            raise ToolError("%s: rejected beyond the end of the trace" % module)
+        matched_total += stuck - 1
+        e["STUCK"] = stuck
+        diag = run_tlc(module, cfg, env=e, workers=1, deque=True, timeout=timeout, xmx=xmx)
+        text = " ".join(l.strip() for l in diag.out.splitlines())
+        m = re.search(r'<<\s*"DIAG".*', text)
+        dtext = m.group(0) if m else "(no diagnostic output)"
+        dtext = re.split(r'Error:|<<"REJECTED"', dtext)[0]
+        failed = re.findall(r"(C\d\d)_(\w+) \|-> FALSE", dtext)
+        g = offset + stuck - 1                # 0-based global index of the stuck line
+        j = g
+        while j > 0 and not is_reset(json.loads(lines[j])):
+            j -= 1
+        segment = [json.loads(x) for x in lines[j:g + 1]]
+        rejections.append({"stuck": g + 1, "failed": failed, "diag": dtext[:2000], "segment": segment,
+                           "event": json.loads(lines[g])})
+        k = g + 1
+        while k < len(lines) and not is_reset(json.loads(lines[k])):
+            k += 1
+        if k >= len(lines) or len(rejections) >= max_rejections:
+            break
+        offset = k
+        tmp = trace_path + ".rest"
+        with open(tmp, "w") as f:
+            f.write("\n".join(lines[k:]) + "\n")
+        cur = tmp
+    if tmp and os.path.exists(tmp):
+        os.unlink(tmp)
+    return matched_total, results, rejections
+
+
+def run_harness(exe, args, stdin_path=None, stdout_path=None, timeout=3600):
+    """run a harness subcommand; returns stdout lines (when not redirected)"""
+    fin = open(stdin_path) if stdin_path else subprocess.DEVNULL
+    fout = open(stdout_path, "w") if stdout_path else subprocess.PIPE
+    try:
+        r = subprocess.run([exe] + [str(a) for a in args], stdin=fin, stdout=fout, stderr=subprocess.PIPE, text=True, timeout=timeout)
+    except subprocess.TimeoutExpired:
+        raise ToolError("harness %s timed out" % args[0])
+    finally:
+        if stdin_path:
+            fin.close()
+        if stdout_path:
+            fout.close()
+    if r.returncode != 0:
+        raise ToolError("harness %s failed (rc=%d): %s" % (args[0], r.returncode, (r.stderr or "")[-1500:]))
+    return [] if stdout_path else r.stdout.splitlines()
+
+
+def split_replay_output(lines):
+    mism, summary = [], None
+    for l in lines:
+        v = json.loads(l)
+        if v.get("k") == "MISMATCH":
+            mism.append(v)
+        elif v.get("k") == "SUMMARY":
+            summary = v
+    if summary is None:
+        raise ToolError("harness produced no summary")
+    return mism, summary
+
+
+def workdir(prefix):
+    import tempfile
+    os.makedirs(BUILD, exist_ok=True)
+    return tempfile.mkdtemp(prefix=prefix + "_", dir=BUILD)
